@@ -25,6 +25,18 @@ type LoopSpec struct {
 	Assigns    []Target
 	HasAssigns bool
 	Decreases  *Clause
+	Exhaustive bool      // the loop is only left through its range/condition check (no break / return inside)
+	Each       []*Clause // per-iteration postconditions: asserted on every back edge (iter() = start of the iteration)
+}
+
+// ConstMapDecl: constmap <var> props C18 : key=value ...  The package-level map literal must be exactly this table and
+// must never be written outside package initialisation; the entries are then available as facts.
+type ConstMapDecl struct {
+	Pkg, Var string
+	Props    []string
+	Entries  map[string]string
+	Keys     []string
+	Text     string
 }
 
 // SiteSpec is an assertion attached to a semantic anchor inside a function:
@@ -63,12 +75,12 @@ type FuncSpec struct {
 }
 
 type SpecFunc struct {
-	Name    string
-	Params  []QVar
-	RetType string
-	Body    Expr
-	Text    string
-	Rec     bool
+	Name     string
+	Params   []QVar
+	RetType  string
+	Body     Expr
+	Text     string
+	Rec      bool
 	Abstract bool
 }
 
@@ -93,6 +105,7 @@ type Contracts struct {
 	Lemmas     []*Lemma
 	Files      []string
 	Assumed    []string // human readable list of assumed (trusted) contracts
+	ConstMaps  []ConstMapDecl
 	Chains     map[string]string // pkg.Type -> name of the acyclic parent-link field
 	Uniques    []UniqueDecl      // fields holding an object owned by exactly one struct (checked by a writer scan)
 	Unreach    []UnreachDecl     // call-graph frame obligations
@@ -126,7 +139,7 @@ type Lemma struct {
 var keywords = map[string]bool{
 	"func": true, "spec": true, "requires": true, "ensures": true, "assigns": true, "loop": true,
 	"props": true, "pure": true, "trusted": true, "invariant": true, "global": true, "lemma": true,
-	"at": true, "mode": true, "use": true, "chain": true, "unique": true, "unreachable": true, "holds": true, "callersof": true, "transitions": true, "frame": true, "sweep": true, "hyp": true, "concl": true, "package": true, "rec": true,
+	"at": true, "mode": true, "use": true, "chain": true, "unique": true, "unreachable": true, "holds": true, "callersof": true, "transitions": true, "constmap": true, "frame": true, "sweep": true, "hyp": true, "concl": true, "package": true, "rec": true,
 }
 
 var funcHdr = regexp.MustCompile(`^func\s*(?:\(\s*(?:\w+\s+)?\*?\s*(\w+)\s*\))?\s*([\w$]+?(?:\$calls\([\w.$]+\))?)\s*(\(.*)$`)
@@ -297,6 +310,43 @@ func (cs *Contracts) parseFile(path string) error {
 			}
 			cs.Chains[pkg+"."+tf[0]] = tf[1]
 			cs.Assumed = append(cs.Assumed, "acyclic parent chain "+pkg+"."+rest+" (the link is only written on freshly constructed objects)")
+			cur, curInv, curLemma = nil, nil, nil
+		case "constmap":
+			fs := strings.Fields(rest)
+			cd := ConstMapDecl{Pkg: pkg, Var: fs[0], Entries: map[string]string{}, Text: rest}
+			mode := ""
+			for _, f := range fs[1:] {
+				if f == "props" || f == ":" {
+					mode = f
+					continue
+				}
+				if mode == "props" {
+					cd.Props = append(cd.Props, f)
+				} else if mode == ":" {
+					k, v, ok := strings.Cut(f, "=")
+					if !ok {
+						return fail("constmap entry %q is not key=value", f)
+					}
+					k = strings.Trim(k, `"`)
+					cd.Entries[k] = v
+					cd.Keys = append(cd.Keys, k)
+				}
+			}
+			cs.ConstMaps = append(cs.ConstMaps, cd)
+			// the table as facts (checked by the constmap obligations, so not an assumption)
+			var conj []string
+			var dom []string
+			for _, k := range cd.Keys {
+				conj = append(conj, fmt.Sprintf("%s[%q] == %s", cd.Var, k, cd.Entries[k]))
+				dom = append(dom, fmt.Sprintf("k == %q", k))
+			}
+			conj = append(conj, "(forall k string :: (k in "+cd.Var+") <==> ("+strings.Join(dom, " || ")+"))")
+			txt := strings.Join(conj, " && ")
+			e, err := parseExpr(txt)
+			if err != nil {
+				return fail("constmap: %v", err)
+			}
+			cs.GlobalInvs = append(cs.GlobalInvs, &GlobalInv{Pkg: pkg, Clause: &Clause{Kind: "global", Text: txt, E: e}})
 			cur, curInv, curLemma = nil, nil, nil
 		case "transitions":
 			fs := strings.Fields(rest)
@@ -469,6 +519,14 @@ func (cs *Contracts) parseFile(path string) error {
 					return fail("%v", err)
 				}
 				ls.Invariants = append(ls.Invariants, &Clause{Kind: "invariant", Text: arg, E: e, N: len(ls.Invariants) + 1})
+			case "exhaustive":
+				ls.Exhaustive = true
+			case "each":
+				e, err := parseExpr(arg)
+				if err != nil {
+					return fail("%v", err)
+				}
+				ls.Each = append(ls.Each, &Clause{Kind: "each", Text: arg, E: e, N: len(ls.Each) + 1})
 			case "assigns":
 				ts, err := parseTargets(arg)
 				if err != nil {
